@@ -50,6 +50,15 @@ pub fn drive(tr: &mut Tracer, rng: &mut StdRng, thorough: bool) {
         if adj == 2 && lead * 10i64.pow(4 - len.min(4) as u32) / 10 > lim { sc += 1; }
         emit(tr, dec(neg, &digits, sc));
     }
+    // long fractions with an ordinary magnitude: 55..130 digits after the point, |x| around 0.1 .. 99, also a short value
+    // written with many trailing zeros (0.5 with scale 60)
+    let cnt_long = if thorough { 40 } else { 5 };
+    for i in 0..cnt_long {
+        let len = rng.gen_range(55..=130);
+        let adj: i64 = [-1, 0, 1, 0, -2][i % 5];
+        let digits = if i % 5 == 3 { format!("{}{}", 1 + i % 9, "0".repeat(len - 1)) } else { rand_digits(rng, len) };
+        emit(tr, dec(i % 2 == 1, &digits, len as i64 - 1 - adj));
+    }
     // near k * ln(10), where e^x crosses a power of ten
     let ks: Vec<i64> = if thorough { (-50..=50).collect() } else { vec![-40, -9, -1, 1, 2, 17, 50] };
     for k in ks {
